@@ -502,7 +502,7 @@ func livePass(tk *task, r *rand.Rand, res *result) {
 
 func TestC22(t *testing.T) {
 	run := ev.Start(t, "C22", "exploration",
-		"PRNG-generated weighted node sets (1-16 nodes; 5 label styles x 4 weight styles, weights 1-500) for each hash/score pairing "+
+		"PRNG-generated weighted node sets (1-16 nodes, plus sets of 20-30 nodes on sampled keys; 5 label styles x 4 weight styles, weights 1-500) for each hash/score pairing "+
 			"(murmur3+UInt64ToFloat64 as shipped in ring and CAStore; sha256/md5/murmur3+BigIntToFloat64). Keys: for the shipped pairing ALL 65536 four-hex shard ids "+
 			"+ all 256 upper- and lower-case two-hex keys + random even-length hex keys up to 128 digits; for the other pairings a PRNG sample of those. "+
 			"Each node set is populated in 6 insertion orders/histories; every node is removed and re-added, and new nodes are added. "+
@@ -544,10 +544,15 @@ func TestC22(t *testing.T) {
 		tasks  []*task
 	}
 	var cases []*caseInfo
-	addCase := func(ci int, p pairing) {
-		r := run.Rand(fmt.Sprintf("case-%s-%d", p.name, ci))
+	addCase := func(ci int, p pairing, big bool) {
+		r := run.Rand(fmt.Sprintf("case-%s-%d-%v", p.name, ci, big))
 		// sizes cover 1..16, rotated by the seed
 		n := 1 + (ci*5+int(run.Seed()))%16
+		if big {
+			// well above 12 elements, where sort.Sort leaves its small-slice path; sampled keys
+			n = 20 + (ci*3+int(run.Seed()))%11
+			p.exhaustive = false
+		}
 		nodes, style := genNodes(r, n)
 		var newcomers []node
 		for len(newcomers) < 2 {
@@ -559,14 +564,22 @@ func TestC22(t *testing.T) {
 		if p.exhaustive {
 			keys = append(keys, exhaustive...)
 		} else {
-			for i := 0; i < nSample; i++ {
+			ns := nSample
+			if big {
+				ns = nSample / 3
+			}
+			for i := 0; i < ns; i++ {
 				keys = append(keys, exhaustive[r.Intn(len(exhaustive))])
 			}
 			for s := 0; s < 256; s++ {
 				keys = append(keys, fmt.Sprintf("%02X", s))
 			}
 		}
-		for i := 0; i < nLong; i++ {
+		nl := nLong
+		if big {
+			nl = nLong / 4
+		}
+		for i := 0; i < nl; i++ {
 			keys = append(keys, gen.Hex(r, 2*(1+r.Intn(64))))
 		}
 		// crafted keys: murmur3-64(key||label) has its low 53 bits zero for one of the
@@ -588,7 +601,7 @@ func TestC22(t *testing.T) {
 			}
 		}
 		craftedKeys += len(special)
-		c := &caseInfo{id: fmt.Sprintf("%s/%d", p.name, ci), key: ev.JSON(map[string]interface{}{"p": p.name, "nodes": nodes}), n: n, style: style}
+		c := &caseInfo{id: fmt.Sprintf("%s/%d%s", p.name, ci, map[bool]string{false: "", true: "/big"}[big]), key: ev.JSON(map[string]interface{}{"p": p.name, "nodes": nodes}), n: n, style: style}
 		for ch := 0; ch < chunks; ch++ {
 			lo, hi := ch*len(keys)/chunks, (ch+1)*len(keys)/chunks
 			tk := &task{id: c.id, p: p, nodes: nodes, style: style, keys: keys[lo:hi], stride: stride,
@@ -607,10 +620,17 @@ func TestC22(t *testing.T) {
 		tasks = append(tasks, c.tasks...)
 	}
 	for ci := 0; ci < nShipped; ci++ {
-		addCase(ci, pairings[0])
+		addCase(ci, pairings[0], false)
 	}
 	for ci := 0; ci < nOther; ci++ {
-		addCase(ci, pairings[1+ci%3])
+		addCase(ci, pairings[1+ci%3], false)
+	}
+
+	for ci := 0; ci < run.N(1, 3); ci++ {
+		addCase(ci, pairings[0], true)
+	}
+	for ci := 0; ci < run.N(0, 3); ci++ {
+		addCase(ci, pairings[1+ci%3], true)
 	}
 
 	// heaviest tasks first, 16 workers; results are consumed in case order below
